@@ -454,7 +454,7 @@ func ops() []Op {
 			if s.node.K != Arr || len(s.node.A) == 0 || len(s.node.A[0].Bytes()) > 2000 {
 				return false
 			}
-			for i := 0; i < 400; i++ {
+			for i := 0; i < 150; i++ {
 				s.node.A = append(s.node.A, s.node.A[0])
 			}
 			return true
@@ -550,11 +550,11 @@ func ops() []Op {
 			return true
 		}},
 		{Name: "deep:array", Apply: func(rnd *rand.Rand, root **Node, s Site) bool {
-			s.replace(root, Deep([]int{64, 1000, 4000, 10001}[rnd.Intn(4)], false))
+			s.replace(root, Deep([]int{64, 1000, 2500, 10001}[rnd.Intn(4)], false))
 			return true
 		}},
 		{Name: "deep:object", Apply: func(rnd *rand.Rand, root **Node, s Site) bool {
-			s.replace(root, Deep([]int{64, 1000, 4000, 10001}[rnd.Intn(4)], true))
+			s.replace(root, Deep([]int{64, 1000, 2500, 10001}[rnd.Intn(4)], true))
 			return true
 		}},
 		{Name: "swap-subtree", Apply: func(rnd *rand.Rand, root **Node, s Site) bool {
